@@ -3759,39 +3759,119 @@ def r11_12(prog, rep, rid='R11.12'):
                         return holds_result(base.id, at)
                     return False
 
+                def derived(e, at, depth=3):
+                    """value expr and cfg node of the one assignment which
+                    gives the plain name e its value at `at`, when that value
+                    is computed from the exit status; else None"""
+                    if not isinstance(e, ast.Name) or depth <= 0 or \
+                            e.id in status or e.id in whole:
+                        return None
+                    defs, initial = defs_at(g, e.id, at)
+                    if initial or len(defs) != 1 or defs[0][1] is None:
+                        return None
+                    dn, v = defs[0]
+                    if reads_status(v, dn.id, depth - 1):
+                        return v, dn.id
+                    return None
+
+                def reads_status(e, at, depth=3):
+                    return any(is_status(x, at) or
+                               derived(x, at, depth) is not None
+                               for x in walk(e))
+
+                def value_of(e, at, code):
+                    """python value of e for the exit status `code`, or
+                    UNKNOWN"""
+                    if is_status(e, at):
+                        return code
+                    if isinstance(e, ast.Constant):
+                        return e.value
+                    d = derived(e, at)
+                    if d is not None:
+                        return value_of(d[0], d[1], code)
+                    if isinstance(e, ast.Call) and \
+                            isinstance(e.func, ast.Name) and \
+                            e.func.id in ('bool', 'int', 'abs') and \
+                            len(e.args) == 1 and not e.keywords:
+                        v = value_of(e.args[0], at, code)
+                        if v is UNKNOWN:
+                            return UNKNOWN
+                        try:
+                            return {'bool': bool, 'int': int,
+                                    'abs': abs}[e.func.id](v)
+                        except (TypeError, ValueError):
+                            return UNKNOWN
+                    if isinstance(e, ast.UnaryOp):
+                        v = value_of(e.operand, at, code)
+                        if v is UNKNOWN:
+                            return UNKNOWN
+                        try:
+                            if isinstance(e.op, ast.Not):
+                                return not v
+                            if isinstance(e.op, ast.USub):
+                                return -v
+                        except TypeError:
+                            pass
+                        return UNKNOWN
+                    if isinstance(e, ast.BoolOp):
+                        vals = [value_of(x, at, code) for x in e.values]
+                        if isinstance(e.op, ast.And):
+                            if any(v is not UNKNOWN and not v for v in vals):
+                                return False
+                        elif any(v is not UNKNOWN and v for v in vals):
+                            return True
+                        if any(v is UNKNOWN for v in vals):
+                            return UNKNOWN
+                        return vals[-1] if isinstance(e.op, ast.And) \
+                            else False
+                    if isinstance(e, ast.Compare) and len(e.ops) == 1:
+                        l = value_of(e.left, at, code)
+                        r_ = value_of(e.comparators[0], at, code)
+                        if l is UNKNOWN or r_ is UNKNOWN:
+                            return UNKNOWN
+                        op = e.ops[0]
+                        try:
+                            if isinstance(op, ast.Eq):
+                                return l == r_
+                            if isinstance(op, ast.NotEq):
+                                return l != r_
+                            if isinstance(op, ast.Is):
+                                return l is r_
+                            if isinstance(op, ast.IsNot):
+                                return l is not r_
+                            if isinstance(op, ast.Lt):
+                                return l < r_
+                            if isinstance(op, ast.LtE):
+                                return l <= r_
+                            if isinstance(op, ast.Gt):
+                                return l > r_
+                            if isinstance(op, ast.GtE):
+                                return l >= r_
+                            if isinstance(op, ast.In):
+                                return l in r_
+                            if isinstance(op, ast.NotIn):
+                                return l not in r_
+                        except TypeError:
+                            return UNKNOWN
+                    if isinstance(e, (ast.Tuple, ast.List, ast.Set)):
+                        vals = [value_of(x, at, code) for x in e.elts]
+                        return UNKNOWN if any(v is UNKNOWN for v in vals) \
+                            else tuple(vals)
+                    if not reads_status(e, at):
+                        return prog.fold(m.module, e, m.cls)
+                    return UNKNOWN
+
                 def evaluator(code, at):
                     def ev(atom):
-                        if is_status(atom, at):
-                            return bool(code)
-                        if isinstance(atom, ast.Compare) and \
-                                len(atom.ops) == 1:
-                            l, r_ = atom.left, atom.comparators[0]
-                            if is_status(r_, at) and not is_status(l, at):
-                                return None     # canonical form: status left
-                            if is_status(l, at):
-                                rv = prog.fold(m.module, r_, m.cls)
-                                if rv is UNKNOWN:
-                                    return None
-                                op = atom.ops[0]
-                                try:
-                                    if isinstance(op, (ast.Eq, ast.Is)):
-                                        return code == rv
-                                    if isinstance(op, (ast.NotEq, ast.IsNot)):
-                                        return code != rv
-                                    if isinstance(op, ast.Lt):
-                                        return code < rv
-                                    if isinstance(op, ast.LtE):
-                                        return code <= rv
-                                    if isinstance(op, ast.Gt):
-                                        return code > rv
-                                    if isinstance(op, ast.GtE):
-                                        return code >= rv
-                                    if isinstance(op, ast.In):
-                                        return code in rv
-                                    if isinstance(op, ast.NotIn):
-                                        return code not in rv
-                                except TypeError:
-                                    return None
+                        v = value_of(atom, at, code)
+                        if v is not UNKNOWN:
+                            return bool(v)
+                        if reads_status(atom, at):
+                            raise AnalysisError(
+                                'UNRECOGNISED-IDIOM %s: the test `%s` reads '
+                                'the exit status of `%s` in a way the '
+                                'recogniser cannot evaluate'
+                                % (m.where, short(atom, 50), short(c, 40)))
                         return None
                     return ev
                 # the status handed on (to a method which may raise for it,
@@ -3806,7 +3886,8 @@ def r11_12(prog, rep, rid='R11.12'):
                                 c2.func.id in PURE_BUILTINS):
                             continue
                         ops_ = list(c2.args) + [kw.value for kw in c2.keywords]
-                        if any(is_status(x, k.id) or (
+                        if any(is_status(x, k.id) or
+                               derived(x, k.id) is not None or (
                                 isinstance(x, ast.Name) and x.id in whole and
                                 holds_result(x.id, k.id))
                                for a in ops_ for x in walk(a)):
@@ -4051,7 +4132,7 @@ def r11_14(prog, rep, rid='R11.14'):
     rep.rule(rid, 'staging backends: the directory an operation creates '
              'before it writes the target of a directive is a parent of the '
              'target (os.path.dirname), never the target path itself',
-             minimum=4)
+             minimum=8)
     helper, backends, delegated = staging_backends(prog)
     hf, pos = target_positions(prog)
     if len(pos) != 1:
@@ -4062,6 +4143,11 @@ def r11_14(prog, rep, rid='R11.14'):
     hf, table = helper_table(prog)
     opnames = sorted({o for kind, ops in table.values() if kind == 'op'
                       for o in ops})
+    for op in sorted(delegated - set(opnames)):
+        if prog.find_method(helper, op) is not None:
+            rep.ok(rid, helper.where, 'StagingHelper.%s is not an operation '
+                   'handle_staging_directive carries a directive out with '
+                   '(R11.3 decides about the dispatch)' % op)
     for op in opnames:
         fm = prog.find_method(helper, op)
         fparams = [p for p in fm.params if p != 'self']
@@ -5040,6 +5126,9 @@ MUTATIONS += [
         (_TI, "                              if sd['action'] in [rpc.TRANSFER, rpc.TARBALL]]",
               "                              if sd['action'] in [rpc.TARBALL]]")]),
     # --- R11.12: exit status of a call-out
+    dict(name='R11.12 defect F22 of the pinned tree: local copy discards the result of cp', rules=('R11.12',), edits=[
+        (_H, _H_CALL + _H_CHECK, "        ru.sh_callout('cp -r %s %s' % (src, tgt))\n")],
+         note='the repair F22 undone'),
     dict(name='R11.12 sibling site: move by `mv` call-out, result discarded', rules=('R11.12',), edits=[
         (_H, _H_MOVE,
              "        self.mkdir(os.path.dirname(tgt), flags)\n"
@@ -5057,6 +5146,16 @@ MUTATIONS += [
         _F22,
         (_H, "        if ret:\n            raise RuntimeError('copy failed", "        if ret > 0:\n            raise RuntimeError('copy failed")],
          note='Popen.returncode is -N for a command killed by signal N'),
+    dict(name='R11.12 failure needs both a status and a message on stderr', rules=('R11.12',), edits=[
+        _F22,
+        (_H, "        if ret:\n            raise RuntimeError('copy failed", "        if ret and err:\n            raise RuntimeError('copy failed")]),
+    dict(name='R11.12 retry loop which gives up silently', rules=('R11.12',), edits=[
+        _F22,
+        (_H, _H_CALL + _H_CHECK,
+             "        for attempt in range(3):\n"
+             "            out, err, ret = ru.sh_callout('cp -r %s %s' % (src, tgt))\n"
+             "            if not ret:\n"
+             "                break\n")]),
     dict(name='R11.12 failure logged, not raised', rules=('R11.12',), edits=[
         _F22,
         (_H, _H_CHECK, "        if ret:\n            self._log.error('copy failed: %s -> %s: %s', src, tgt, err)\n")]),
@@ -5161,6 +5260,38 @@ SILENT += [
              "        _, err, rc = ru.sh_callout('cp -r %s %s' % (src, tgt))\n"
              "        self._log.debug('cp done: %s', rc)\n"
              "        if rc:\n"
+             "            raise RuntimeError('copy failed: %s -> %s: %s' % (src, tgt, err))\n")]),
+    dict(name='exit status: retry loop, break on success, raise after the last attempt', edits=[
+        _F22,
+        (_H, _H_CALL + _H_CHECK,
+             "        for attempt in range(3):\n"
+             "            out, err, ret = ru.sh_callout('cp -r %s %s' % (src, tgt))\n"
+             "            if not ret:\n"
+             "                break\n"
+             "        if ret:\n"
+             "            raise RuntimeError('copy failed: %s -> %s: %s' % (src, tgt, err))\n")]),
+    dict(name='exit status: retry loop with for-else raise', edits=[
+        _F22,
+        (_H, _H_CALL + _H_CHECK,
+             "        for attempt in range(3):\n"
+             "            out, err, ret = ru.sh_callout('cp -r %s %s' % (src, tgt))\n"
+             "            if not ret:\n"
+             "                break\n"
+             "        else:\n"
+             "            raise RuntimeError('copy failed: %s -> %s: %s' % (src, tgt, err))\n")]),
+    dict(name='exit status: through a boolean local, status in the message', edits=[
+        _F22,
+        (_H, _H_CHECK,
+             "        failed = bool(ret)\n"
+             "        if failed:\n"
+             "            raise RuntimeError('copy failed [%s]: %s -> %s: %s' % (ret, src, tgt, err))\n")]),
+    dict(name='exit status: copy skipped for identical paths, status defaults to 0', edits=[
+        _F22,
+        (_H, _H_CALL + _H_CHECK,
+             "        ret, err = 0, ''\n"
+             "        if src != tgt:\n"
+             "            out, err, ret = ru.sh_callout('cp -r %s %s' % (src, tgt))\n"
+             "        if ret:\n"
              "            raise RuntimeError('copy failed: %s -> %s: %s' % (src, tgt, err))\n")]),
     dict(name='exit status checked in an extracted method', edits=[
         _F22,
